@@ -38,7 +38,7 @@ Lemma success_front cfg e w p tape :
   String.eqb (pk_sport p) "" || String.eqb (pk_schan p) "" = false /\
   existsb (Z.eqb protocol_ibc) (cfg_adapter_routes cfg) = true.
 Proof.
-  unfold recv, recv_lie, recv_with.
+  unfold recv, recv_lie, recv_with, recv_generic.
   destruct (negb (ccid_valid _)); [discriminate|].
   destruct (_ || _); [discriminate|].
   destruct (existsb _ _); [auto|discriminate].
